@@ -11,7 +11,7 @@ from .. import fileio as fio
 from . import c01, c04, c05, c06, c08
 
 THEOREMS = ["C14_decision_open", "C14_decision_write", "C14_bit", "C14_one_vlr", "C14_hidden", "C14_no_dup",
-            "C14_user_vlrs", "C14_transparent"]
+            "C14_user_vlrs", "C14_transparent", "stub_codecLaws", "sessionC_form", "C14_file_roundtrip", "C14_file_transparent"]
 
 
 def laszip_count_in_file(data):
@@ -68,7 +68,7 @@ def run(ck):
                "x backend {none, one, list}. Transparency: the cases of C01/C03-C06 written compressed and uncompressed and "
                "read back (whole, chunked, seek-and-read histories, append sessions, non-seekable source with EVLRs); records, "
                "statistics, VLRs, EVLRs must be equal; LasZip record counted in the file bytes and in las.vlrs; rewrite does "
-               "not duplicate it. distinct by case")
+               "not duplicate it. Whole compressed sessions (one-shot and chunked) are also produced by the Lean model sessionC with the backend double written out (stubCodec) and compared byte for byte with the file laspy wrote; the read-back image is compared with readFileC. distinct by case")
     ck.regen()
     ck.lean_props("C14", THEOREMS)
     q = ck.tier == "quick"
@@ -149,6 +149,17 @@ def run(ck):
                     w.close()
                     how = f"chunked {parts}"
                 cdata, pdata = comp.getvalue(), plain.getvalue()
+                # ---- model of the whole compressed session / reading (backend double written out in Lean): byte for byte
+                size0 = las.header.point_format.size
+                raw0 = las.points.array.tobytes()
+                mops, pos0 = [], 0
+                for p in ([n] if how == "one-shot" else parts):
+                    mops.append(fio.op_points(fmt, size0, raw0[pos0 * size0:(pos0 + p) * size0]))
+                    pos0 += p
+                if minor >= 4 and las.evlrs is not None:
+                    mops.append(fio.op_evlrs([(u.decode(), r, d.decode("latin-1"), pl) for (u, r, d, pl) in (c08.canon(v) for v in las.evlrs)]))
+                lines.append(f"cz session {lazrs.CHUNK_SIZE} " + fio.hdr_line(fio.header_fields(las.header)) + " -- " + " ".join(mops))
+                meta.append((dict(inp, what="compressed session bytes", how=how), "ok " + c08.hx(cdata)))
                 if not cdata[104] & 0x80:
                     ck.fail("compressed file does not carry the compressed bit", inp)
                 if laszip_count_in_file(cdata) != 1 or laszip_count_in_file(pdata) != 0:
@@ -156,6 +167,8 @@ def run(ck):
                 rb = ck.rng.choice([LazBackend.Lazrs, LazBackend.LazrsParallel])
                 a = laspy.read(io.BytesIO(cdata), laz_backend=rb)
                 b = laspy.read(io.BytesIO(pdata))
+                lines.append(f"cz read {lazrs.CHUNK_SIZE} {c08.hx(cdata)}")
+                meta.append((dict(inp, what="reading the compressed file"), c01.canon_read(a)))
                 if canon_no_layout(a) != canon_no_layout(b):
                     x, y = canon_no_layout(a), canon_no_layout(b)
                     k0 = next((i for i in range(min(len(x), len(y))) if x[i] != y[i]), -1)
@@ -198,6 +211,24 @@ def run(ck):
                     b3 = laspy.read(io.BytesIO(pd2))
                     if canon_no_layout(b3) != canon_no_layout(b):
                         ck.fail(f"data read from a compressed file and written uncompressed ({how}) reads differently from the original", dict(inp, rewrite=how))
+                # ---- selective decompression (layered formats): whatever is selected is read as written; the default selects all
+                if fmt >= 6 and n > 0:
+                    from laspy import DecompressionSelection as DS
+                    groups = {DS.Z: ["Z"], DS.CLASSIFICATION: ["classification"], DS.INTENSITY: ["intensity"], DS.SCAN_ANGLE: ["scan_angle"],
+                              DS.USER_DATA: ["user_data"], DS.POINT_SOURCE_ID: ["point_source_id"], DS.GPS_TIME: ["gps_time"],
+                              DS.FLAGS: ["synthetic", "key_point", "withheld", "overlap", "scan_direction_flag", "edge_of_flight_line"],
+                              DS.RGB: ["red", "green", "blue"], DS.NIR: ["nir"], DS.ALL_EXTRA_BYTES: [p.name for p in params]}
+                    chosen = [v for v in groups if ck.rng.random() < 0.5]
+                    sel = DS.XY_RETURNS_CHANNEL
+                    for v in chosen:
+                        sel |= v
+                    ck.count("selective_read")
+                    part = laspy.read(io.BytesIO(cdata), laz_backend=rb, decompression_selection=sel)
+                    names = ["X", "Y", "return_number", "number_of_returns"] + [d for v in chosen for d in groups[v]]
+                    for d in names:
+                        if d in b.point_format.dimension_names and np.array(part[d]).tobytes() != np.array(b[d]).tobytes():
+                            ck.fail(f"selective decompression {sel!r}: the selected dimension {d} is not read as written", dict(inp, selection=int(sel), dim=d))
+                            break
                 lines.append(f"cz vlrs 1 1 {'0' * len(las.vlrs) or '-'}")
                 meta.append((inp, "u" * len(las.vlrs) + "Z" + " " + "u" * len(a.vlrs)))
                 # ---- seek-and-read histories on the compressed file
@@ -273,8 +304,9 @@ def run(ck):
     else:
         for (inp, exp), o in zip(meta, out):
             if o != exp and bad is None:
-                bad = f"{inp}: model '{o}' impl '{exp}'"
-    ck.oblige("correspondence compress/glue: model decisions / compressed bit / LasZip bookkeeping == laspy's glue on the backend double", "correspondence", bad is None, bad or "")
+                k0 = next((i for i in range(min(len(o), len(exp))) if o[i] != exp[i]), min(len(o), len(exp)))
+                bad = f"{inp}: model '{o[:200]}' impl '{exp[:200]}' (first difference at char {k0}: model ...{o[max(0, k0 - 20):k0 + 40]} impl ...{exp[max(0, k0 - 20):k0 + 40]})"
+    ck.oblige("correspondence compress/glue: model decisions / compressed bit / LasZip bookkeeping / whole compressed files byte for byte (sessionC on the written-out backend double) / readFileC == laspy's glue on the backend double", "correspondence", bad is None, bad or "")
     ck.failures.sort(key=lambda f: (f["input"].get("n", 0), len(str(f["input"]))))
     if ck.tier == "thorough":
         ck.leanchecker(["LasModel.Props.C14"])
